@@ -13,6 +13,7 @@ pub trait LDigest {
     fn output_bytes(&self) -> usize;
     fn block_size(&self) -> usize;
     fn result_str(&mut self) -> String;
+    fn input_str(&mut self, s: &str);
     fn bclone(&self) -> Box<dyn LDigest>;
     fn b2_reset(&mut self) -> Result<(), String> {
         Err("unsupported".into())
@@ -55,6 +56,9 @@ macro_rules! ldigest_common {
         }
         fn result_str(&mut self) -> String {
             Digest::result_str(self)
+        }
+        fn input_str(&mut self, s: &str) {
+            Digest::input_str(self, s)
         }
         fn bclone(&self) -> Box<dyn LDigest> {
             Box::new(self.clone())
@@ -303,6 +307,17 @@ pub fn dispatch(m: &mut Machine, name: &str, args: &[&str]) -> Option<R> {
             let d = arg_bytes(args[1])?;
             with_digest(m, s, |h| {
                 h.input(&d);
+                Ok("-".into())
+            })
+        })(),
+        // dinput_str <slot> <bytes that are valid UTF-8>: Digest::input_str
+        "dinput_str" => (|| {
+            need(args, 2)?;
+            let s = arg_slot(args[0])?;
+            let d = arg_bytes(args[1])?;
+            let st = String::from_utf8(d.to_vec()).map_err(|_| "bad-utf8".to_string())?;
+            with_digest(m, s, |h| {
+                h.input_str(&st);
                 Ok("-".into())
             })
         })(),
